@@ -3,7 +3,7 @@
   (±0, finite, ±Inf), finite×finite delegating to `Spec.round` of the exact result.
   `none` = invalid operation (NaN): the Go code must panic with ErrNaN.
 -/
-import DecimalModel.Spec.Round
+import DecimalModel.Spec.RoundInt
 
 namespace Decimal.Spec
 
@@ -102,5 +102,37 @@ def cmpSV (x y : SV) : Int :=
   else match x, y with
     | .fin n q k, .fin _ r l => if n then cmpMag r l q k else cmpMag q k r l
     | _, _ => 0
+
+end Decimal.Spec
+
+namespace Decimal.Spec
+open Decimal
+
+/-- Correctly rounded square root: `none` = invalid (negative operand). The magnitude of a finite
+    operand must have an integer coefficient (`q.den = 1`), which holds for `ofDec`. -/
+def sqrtSV (mode : Mode) (p : Nat) : SV → Option SRes
+  | .zero n => some (zeroRes n)
+  | .inf false => some (infRes false)
+  | .inf true => none
+  | .fin true _ _ => none
+  | .fin false q k =>
+    let M := q.num.natAbs
+    let (M, k) := if k % 2 != 0 then (M * 10, k - 1) else (M, k)
+    let t := p + 1
+    let X := M * 10 ^ (2 * t)
+    let N := Nat.sqrt X
+    some (roundInt mode p false N (k / 2 - t) (N * N != X))
+
+/-- Value agreement only (sign, class, digits, exponent), ignoring the accuracy. -/
+def agreesValue (z : Dec) (r : SRes) : Bool := agrees { z with acc := r.acc } r
+
+/-- Truncation toward zero of a value, as (negative?, magnitude), and whether it was exact. -/
+def truncSV : SV → Option (Bool × Nat × Bool)
+  | .zero _ => some (false, 0, true)
+  | .inf _ => none
+  | .fin n q k =>
+    let v : Rat := q * pow10Rat k
+    let f := v.floor.toNat
+    some (n, f, (f : Rat) == v)
 
 end Decimal.Spec
